@@ -810,7 +810,7 @@ func (e *Env) call(ex *Expr) Value {
 			if iv, isI := v.(IfaceV); isI {
 				v = Scalar{iv.Val} // objects behind interfaces are identified by their reference
 			}
-			for _, l := range flatten(v) {
+			for _, l := range flattenSpec(v) {
 				ats = append(ats, l)
 				sorts = append(sorts, l.Sort)
 			}
